@@ -118,9 +118,25 @@ def abstract_generic_method(kind):
     return 'template/abstract-generic-method-%s' % ('interface' if kind == 0 else 'abstract'), _program([I, K])
 
 
+def block_function(with_branch):
+    """class Foo; fun ping(): Unit;  fun test(): Foo { ping(); val y: Foo = Foo(); [if (true) Foo() else] Foo() }"""
+    Foo = ast.ClassDeclaration('Foo', [], ast.ClassDeclaration.REGULAR, fields=[], functions=[], is_final=False)
+    Bar = ast.ClassDeclaration('Bar', [], ast.ClassDeclaration.REGULAR, fields=[], functions=[], is_final=False)
+    ping = ast.FunctionDeclaration('ping', [], kt.Unit, ast.Block([]), ast.FunctionDeclaration.FUNCTION)
+    y = ast.VariableDeclaration('y', ast.New(Foo.get_type(), []), is_final=True, var_type=Foo.get_type())
+    last = ast.New(Foo.get_type(), [])
+    if with_branch:
+        last = ast.Conditional(ast.BooleanConstant('true'), ast.Block([ast.New(Foo.get_type(), [])], is_func_block=False),
+                               ast.Block([ast.New(Foo.get_type(), [])], is_func_block=False), Foo.get_type())
+    test = ast.FunctionDeclaration('test', [], Foo.get_type(), ast.Block([ast.FunctionCall('ping', []), y, last]),
+                                   ast.FunctionDeclaration.FUNCTION)
+    expr = ast.FunctionDeclaration('mk', [], Foo.get_type(), ast.New(Foo.get_type(), []), ast.FunctionDeclaration.FUNCTION)
+    return 'template/block-function-%s' % ('branch' if with_branch else 'plain'), _program([Foo, Bar, ping, test, expr])
+
+
 def all_templates():
     out = [nested_function(2), nested_function(4), nested_function(5), abstract_generic_method(0),
-           abstract_generic_method(1)]
+           abstract_generic_method(1), block_function(0), block_function(1)]
     for f1 in (0, 1):
         for f2 in (0, 1):
             for full in (0, 1):
